@@ -24,6 +24,8 @@ fn parse_cfg_if_inner<'a>(
     psess: &'a ParseSess,
     mac: &'a ast::MacCall,
 ) -> Result<Vec<ast::Item>, &'static str> {
+    #[cfg(rustfmt_verif)]
+    crate::verif_hooks::fault_point("parse_cfg_if", "");
     let ts = mac.args.tokens.clone();
     let mut parser = build_stream_parser(psess.inner(), ts);
 
